@@ -62,6 +62,45 @@ def reachable(spec):
             if t < nimp['table']:
                 push('element', k)
     types = [(tuple(p), tuple(r)) for p, r in spec.types]
+    ref_funcs = []          # functions named by ref.func in live code of reachable bodies
+    while True:
+      _more = _drain(spec, work, used, push, imp, nimp, types, ref_funcs)
+      if not _keep_declarations(spec, used, push, ref_funcs, nimp):
+        break
+    return used, nimp
+
+
+def _mentions(e, f):
+    if e['items'][0] == 'funcs':
+        return any(conc(x) == f for x in e['items'][1])
+    return any(c.variant == 'RefFunc' and conc(c.f[0]) == f for c in e['items'][2])
+
+
+def _keep_declarations(spec, used, push, ref_funcs, nimp):
+    """a function named by ref.func in live code must stay declared outside of function bodies (validity): if no export,
+    kept element segment or kept global initialiser mentions it, the first element segment - else the first global - that
+    does is kept"""
+    pushed = False
+    for f in ref_funcs:
+        declared = any(e['kind'] == 'Func' and conc(e['index']) == f for e in spec.exports) \
+            or any(_mentions(spec.elements[k], f) for k in used['element']) \
+            or any(g >= nimp['global'] and spec.globals[g - nimp['global']]['init'].variant == 'RefFunc' and conc(spec.globals[g - nimp['global']]['init'].f[0]) == f for g in used['global'])
+        if declared:
+            continue
+        ks = [k for k, e in enumerate(spec.elements) if _mentions(e, f)]
+        if ks:
+            push('element', ks[0])
+            pushed = True
+            continue
+        gs = [k for k, g in enumerate(spec.globals) if g['init'].variant == 'RefFunc' and conc(g['init'].f[0]) == f]
+        if gs:
+            push('global', nimp['global'] + gs[0])
+            pushed = True
+    del ref_funcs[:]
+    return pushed
+
+
+def _drain(spec, work, used, push, imp, nimp, types, ref_funcs):
     while work:
         kind, i = work.pop()
         if kind == 'func':
@@ -73,6 +112,8 @@ def reachable(spec):
             for op, live, _d, _o in bodycmp.liveness(f['ops']):
                 if not live or op.variant == 'Nop':
                     continue
+                if op.variant == 'RefFunc':
+                    ref_funcs.append(conc(op.f[0]))
                 for k2, j in op_refs(op):
                     if k2 == 'type':
                         # a block type index whose signature has an inline form need not keep the type alive
@@ -114,4 +155,5 @@ def reachable(spec):
                 push('memory', conc(d['memory']))
                 for k2, j in cexpr_refs(d['offset']):
                     push(k2, j)
-    return used, nimp
+    return None
+
